@@ -64,6 +64,9 @@ type TypeStmt struct {
 	Len  string  `json:"len"`
 	En   []EnumV `json:"en"`
 	Base IdRef   `json:"base"`
+	// Mem: the member types of a union; Path: the steps of a leafref path ("..", names, or "/" first)
+	Mem  []TypeStmt `json:"mem"`
+	Path []string   `json:"path"`
 }
 
 type Typedef struct {
@@ -80,6 +83,8 @@ type EffType struct {
 	Lens []string `json:"lens"`
 	En   []EnumV  `json:"en"`
 	Ids  []string `json:"ids"`
+	Mems []string `json:"mems"`
+	Tgt  string   `json:"tgt"`
 }
 
 type Stmt struct {
@@ -147,7 +152,7 @@ func renderType(sb *strings.Builder, t TypeStmt, d int) {
 	if name == "" {
 		name = "string"
 	}
-	if t.Rng == "" && t.Len == "" && len(t.En) == 0 && t.Base.N == "" {
+	if t.Rng == "" && t.Len == "" && len(t.En) == 0 && t.Base.N == "" && len(t.Mem) == 0 && len(t.Path) == 0 {
 		fmt.Fprintf(sb, "%stype %s;\n", ind(d), name)
 		return
 	}
@@ -166,13 +171,48 @@ func renderType(sb *strings.Builder, t TypeStmt, d int) {
 		fmt.Fprintf(sb, "%sbase %s;\n", ind(d+1), b)
 	}
 	for _, e := range t.En {
+		kw, vkw := "enum", "value"
+		if t.N == "bits" {
+			kw, vkw = "bit", "position"
+		}
 		if e.V >= 0 {
-			fmt.Fprintf(sb, "%senum %s {\n%svalue %d;\n%s}\n", ind(d+1), e.L, ind(d+2), e.V, ind(d+1))
+			fmt.Fprintf(sb, "%s%s %s {\n%s%s %d;\n%s}\n", ind(d+1), kw, e.L, ind(d+2), vkw, e.V, ind(d+1))
 		} else {
-			fmt.Fprintf(sb, "%senum %s;\n", ind(d+1), e.L)
+			fmt.Fprintf(sb, "%s%s %s;\n", ind(d+1), kw, e.L)
 		}
 	}
+	for _, m := range t.Mem {
+		renderType(sb, m, d+1)
+	}
+	if len(t.Path) > 0 {
+		fmt.Fprintf(sb, "%spath %q;\n", ind(d+1), PathText(t.Path))
+	}
 	fmt.Fprintf(sb, "%s}\n", ind(d))
+}
+
+// PathText writes the steps of a leafref path ("/" first: absolute).
+func PathText(steps []string) string {
+	if len(steps) > 0 && steps[0] == "/" {
+		return "/" + strings.Join(steps[1:], "/")
+	}
+	return strings.Join(steps, "/")
+}
+
+// typeSig mirrors TypeSig of YangMeaning.tla: a compiled type as one string.
+func typeSig(t *PType) string {
+	base := strings.TrimSuffix(t.Format, "-list")
+	if base == "union" {
+		var ms []string
+		for i := range t.Union {
+			ms = append(ms, typeSig(&t.Union[i]))
+		}
+		return "union[" + strings.Join(ms, "|") + "]"
+	}
+	en := t.Enums
+	if base == "bits" {
+		en = t.Bits
+	}
+	return base + "(" + strings.Join(t.Ranges, ",") + ";" + strings.Join(t.Lengths, ",") + ";" + strings.Join(en, ",") + ")"
 }
 
 func renderTypedefs(sb *strings.Builder, tds []Typedef, d int) {
@@ -334,12 +374,19 @@ func toNodes(kids []PNode, parentCfg bool, parentName string, path string, in *i
 		case "again":
 			continue
 		}
-		n := Node{K: k.K, N: k.N, Mand: k.Mand == "true", Desc: k.Desc, Keys: k.Keys, C: []Node{}, Units: k.Units, Et: EffType{Rngs: []string{}, Lens: []string{}, En: []EnumV{}, Ids: []string{}}}
+		n := Node{K: k.K, N: k.N, Mand: k.Mand == "true", Desc: k.Desc, Keys: k.Keys, C: []Node{}, Units: k.Units, Et: EffType{Rngs: []string{}, Lens: []string{}, En: []EnumV{}, Ids: []string{}, Mems: []string{}}}
 		if k.Type != nil {
 			n.Et.Base = strings.TrimSuffix(k.Type.Format, "-list")
 			n.Et.Rngs = append(n.Et.Rngs, k.Type.Ranges...)
 			n.Et.Ids = append(n.Et.Ids, k.Type.Bases...)
 			n.Et.Lens = append(n.Et.Lens, k.Type.Lengths...)
+			for i := range k.Type.Union {
+				n.Et.Mems = append(n.Et.Mems, typeSig(&k.Type.Union[i]))
+			}
+			n.Et.Tgt = k.Type.Target
+			if n.Et.Base == "bits" {
+				k.Type.Enums = k.Type.Bits
+			}
 			for _, e := range k.Type.Enums {
 				if i := strings.LastIndexByte(e, '='); i > 0 {
 					v := 0
